@@ -15,7 +15,7 @@ META = {
         "target cell was judged against the interpolation model (kinds 0-2) or a refusal "
         "was exercised (kind 3)."
     ),
-    "cases": {"quick": 640, "thorough": 16000},
+    "cases": {"quick": 640, "thorough": 9600},
     "workers": {"quick": 8, "thorough": 16},
     "timeout": {"quick": 600, "thorough": 5400},
     "deciding": [
